@@ -277,6 +277,80 @@ theorem biPow_pres (hR : StRel R)  (args : List (EvalM Val)) (h : PArgs R args) 
   repeat (first | pres_step h hR)
 -- END r10
 
+-- BEGIN C10 (second dispatch table `evalBuiltinX`: num, isnum, bool, isnull, typeof, sign, libm functions, round, max, min, mod, atan2, clamp, constants)
+theorem biNum_pres (hR : StRel R) (args : List (EvalM Val)) (h : PArgs R args) :
+    Pres R (biNum (m := EvalM) args) := by
+  unfold biNum
+  repeat (first | pres_step h hR)
+
+theorem biIsnum_pres (hR : StRel R) (args : List (EvalM Val)) (h : PArgs R args) :
+    Pres R (biIsnum (m := EvalM) args) := by
+  unfold biIsnum
+  repeat (first | pres_step h hR)
+
+theorem biBool_pres (hR : StRel R) (args : List (EvalM Val)) (h : PArgs R args) :
+    Pres R (biBool (m := EvalM) args) := by
+  unfold biBool
+  repeat (first | pres_step h hR)
+
+theorem biIsnull_pres (hR : StRel R) (args : List (EvalM Val)) (h : PArgs R args) :
+    Pres R (biIsnull (m := EvalM) args) := by
+  unfold biIsnull
+  repeat (first | pres_step h hR)
+
+theorem biTypeof_pres (hR : StRel R) (args : List (EvalM Val)) (h : PArgs R args) :
+    Pres R (biTypeof (m := EvalM) args) := by
+  unfold biTypeof
+  repeat (first | pres_step h hR)
+
+theorem biSign_pres (hR : StRel R) (args : List (EvalM Val)) (h : PArgs R args) :
+    Pres R (biSign (m := EvalM) args) := by
+  unfold biSign
+  repeat (first | pres_step h hR)
+
+theorem mathMap_pres (hR : StRel R) fn (args : List (EvalM Val)) (h : PArgs R args) :
+    Pres R (mathMap (m := EvalM) fn args) := by
+  unfold mathMap
+  repeat (first | pres_step h hR)
+
+theorem biRound_pres (hR : StRel R) (args : List (EvalM Val)) (h : PArgs R args) :
+    Pres R (biRound (m := EvalM) args) := by
+  unfold biRound
+  repeat (first | pres_step h hR)
+
+theorem biMinMax_pres (hR : StRel R) b (args : List (EvalM Val)) (h : PArgs R args) :
+    Pres R (biMinMax (m := EvalM) b args) := by
+  unfold biMinMax
+  repeat (first | pres_step h hR)
+
+theorem biMod_pres (hR : StRel R) (args : List (EvalM Val)) (h : PArgs R args) :
+    Pres R (biMod (m := EvalM) args) := by
+  unfold biMod
+  repeat (first | pres_step h hR)
+
+theorem biAtan2_pres (hR : StRel R) (args : List (EvalM Val)) (h : PArgs R args) :
+    Pres R (biAtan2 (m := EvalM) args) := by
+  unfold biAtan2
+  repeat (first | pres_step h hR)
+
+theorem biClamp_pres (hR : StRel R) (args : List (EvalM Val)) (h : PArgs R args) :
+    Pres R (biClamp (m := EvalM) args) := by
+  unfold biClamp
+  repeat (first | pres_step h hR)
+
+theorem evalBuiltinX_pres (hR : StRel R) (name : String) (args : List (EvalM Val)) (h : PArgs R args)
+    (r : EvalM Val) (hr : evalBuiltinX (m := EvalM) name args = some r) : Pres R r := by
+  unfold evalBuiltinX at hr
+  split at hr
+  all_goals first
+    | (cases hr; first
+        | exact biNum_pres hR _ h | exact biIsnum_pres hR _ h | exact biBool_pres hR _ h | exact biIsnull_pres hR _ h
+        | exact biTypeof_pres hR _ h | exact biSign_pres hR _ h | exact mathMap_pres hR _ _ h | exact biRound_pres hR _ h
+        | exact biMinMax_pres hR _ _ h | exact biMod_pres hR _ h | exact biAtan2_pres hR _ h | exact biClamp_pres hR _ h
+        | exact Pres.pure hR _)
+    | cases hr
+-- END C10
+
 theorem biSubstr_pres (hR : StRel R) (args : List (EvalM Val)) (h : PArgs R args) : Pres R (biSubstr (m := EvalM) args) :=
   substrLike_pres hR _ _ _ _ _ h
 theorem biSubraw_pres (hR : StRel R) (args : List (EvalM Val)) (h : PArgs R args) : Pres R (biSubraw (m := EvalM) args) :=
@@ -311,7 +385,9 @@ theorem evalBuiltin_pres (hR : StRel R) (fmt : Num.F64 → Bytes) (name : String
   · cases hr; exact biAbs_pres hR _ h
   · cases hr; exact biPow_pres hR _ h
   -- END r10
-  · cases hr
+  -- BEGIN C10
+  · exact evalBuiltinX_pres hR _ _ h r hr
+  -- END C10
 
 /-! ## Part 2: the stack of running `forall` loops -/
 
